@@ -4,6 +4,7 @@ import random
 from vf.core import Gen
 
 META = dict(
+    technique='solver-based bounded symbolic execution of the real code (CrossHair + z3), counterexample replay; template text is concrete per condition and parsed outside the tracer, values are symbolic',
     functions_encoded=["pydra.compose.shell.builder.parse_command_line_template", "remaining_positions", "shell.define (template form)",
                        "pydra.compose.shell.task.ShellTask._command_args (argv in template order)"],
     stubs=[],
